@@ -113,11 +113,22 @@ Fixpoint signs_loop (lvl : Z) (sign : Z) (s : list tok) : hres Z :=
 Definition read_optional_signs (lvl : Z) (s : list tok) : hres Z :=
   signs_loop lvl 1 (read_optional_spaces s).
 
-(* readSequence(chars, optspace): for t in self; default handled by the callers *)
+(* readSequence peeks at the next token unexpanded: a token that has a macroName but whose meaning is not one TeX expands
+   while it scans a number (here: not a register) -- a brace, $, ~, \relax, any ordinary command -- ends the run and stays
+   in the stream UNEXPANDED.  Elements, registers and plain characters go through the expanding iterator as before. *)
+Definition stops_unexpanded (t : tok) : bool :=
+  match t with
+  | Ch cat _ => has_macro cat
+  | Cs k false => negb (is_param k)
+  | Cs _ true => false
+  end.
+
+(* readSequence(chars, optspace); default handled by the callers *)
 Fixpoint read_sequence (lvl : Z) (chars : list Z) (optspace : bool) (s : list tok) : hres (list Z) :=
   match s with
   | [] => HOk [] []
   | t :: r =>
+      if stops_unexpanded t then HOk [] (t :: r) else
       match expand1 lvl t with
       | None => HUn
       | Some (Cs k e) => HOk [] (Cs k e :: r)
@@ -172,6 +183,8 @@ Definition ord_tok (t : tok) : option Z :=
   | _ => None
   end.
 
+Definition is_register (t : tok) : bool := match t with Cs k _ => is_param k | Ch _ _ => false end.
+
 Definition read_integer (optspace : bool) (s : list tok) (lvl0 : Z) : res Z :=
   let lvl := lvl0 - 1 in                                   (* ParameterCommand.disable() *)
   match read_optional_signs lvl s with
@@ -194,15 +207,19 @@ Definition read_integer (optspace : bool) (s : list tok) (lvl0 : Z) : res Z :=
               | None => Crash crash_value lvl
               | Some n =>
                 let num := sign * n in
+                (* one unexpanded token is looked at (itertokens) and pushed back; only a register -- an element that is a
+                   ParameterCommand, or a control sequence whose meaning is a ParameterCommand class -- is then expanded
+                   and multiplies the constant; anything else stays where it is, unexpanded *)
                 match s2 with
                 | [] => Ok num [] (lvl + 1)
                 | u :: r2 =>
-                  match expand1 lvl u with
-                  | None => Unmod
-                  | Some (Cs k e) => if is_param k then Ok (num * as_number k) r2 (lvl + 1)
-                                     else Ok num (Cs k e :: r2) (lvl + 1)
-                  | Some u' => Ok num (u' :: r2) (lvl + 1)
-                  end
+                  if is_register u then
+                    match expand1 lvl u with
+                    | None => Unmod
+                    | Some (Cs k e) => Ok (num * as_number k) r2 (lvl + 1)
+                    | Some u' => Ok num (u' :: r2) (lvl + 1)
+                    end
+                  else Ok num (u :: r2) (lvl + 1)
                 end
               end
             end
